@@ -1,5 +1,6 @@
-"""Implementation side of C05: build a real Observation from Python objects, run it sequentially
-(with_dask=False) through pyxel.run_mode, and report (a) the values every run actually received
+"""Implementation side of C05: build a real Observation from Python objects, run it through pyxel.run_mode
+-- sequentially (with_dask=False) or, for cases with "dask": true, on the dask path (with_dask=True under the
+synchronous scheduler, so that the probe trace of one pipeline run is contiguous) -- and report (a) the values every run actually received
 (recorded by the probe model verif_probes_c05.observe) and (b) the complete label -> data map read
 back from the returned DataTree with .isel/.sel.  All numbers are exact multiples of 1/8 and are
 reported as integer numerators in eighths."""
@@ -11,13 +12,16 @@ import numpy as np
 RESERVED = ("time", "y", "x")
 
 
+UNIT = dict(off=0.0, scale=8.0)      # value = off + n / scale; set per case by handle()
+
+
 def _val(e, as_int):
-    """eighths -> python value"""
+    """n -> python value"""
     if isinstance(e, list):
         return [_val(x, as_int) for x in e]
-    if as_int and e % 8 == 0:
+    if as_int and UNIT["off"] == 0.0 and e % 8 == 0:
         return e // 8
-    return e / 8.0
+    return UNIT["off"] + e / UNIT["scale"]
 
 
 def _eighths(x):
@@ -27,7 +31,7 @@ def _eighths(x):
         return [_eighths(y) for y in x]
     if isinstance(x, np.generic):
         x = x.item()
-    r = f(x)
+    r = f(x, UNIT["off"], UNIT["scale"])
     return -1 if r is None else r
 
 
@@ -47,7 +51,7 @@ def build(case):
     spec = {}
     for pr in case["probes"]:
         args = {k: _val(v, False) for k, v in pr["args"].items()}
-        args.update(slots=list(pr["slots"]), base=pr["base"])
+        args.update(slots=list(pr["slots"]), base=pr["base"], off=UNIT["off"], scale=UNIT["scale"])
         spec.setdefault(pr["group"], []).append(dict(func="verif_probes_c05.observe", name=pr["name"], arguments=args))
     pipe = pyx.make_pipeline(spec)
     for s in case["slots"]:
@@ -70,7 +74,8 @@ def build(case):
 
 def dump_result(dt):
     """Every entry of the result: all parameter coordinates (labels) and the pixel data under them."""
-    ds = dt["/bucket"].to_dataset()
+    # with_inherited_coords=False keeps the buckets in the root group
+    ds = (dt["/bucket"] if "bucket" in dt.children else dt).to_dataset()
     pixel = ds["pixel"]
     pdims = [d for d in pixel.dims if d not in RESERVED]
     names = [c for c in ds.coords if c not in RESERVED and not str(c).startswith("dim_")]
@@ -115,11 +120,12 @@ def handle(case):
     vp.reset()
     raised = None
     entries = []
+    UNIT.update(off=0.5, scale=float(2 ** 30)) if case.get("fine") else UNIT.update(off=0.0, scale=8.0)
     try:
         det, pipe, params = build(case)
         kw = {}
         if case["mode"] == "custom":
-            tab = np.array(case["table"], dtype=float) / 8.0
+            tab = UNIT["off"] + np.array(case["table"], dtype=float) / UNIT["scale"]
             if case.get("file", "npy") == "npy":
                 fname = os.path.abspath("c05_table.npy")
                 np.save(fname, tab)
@@ -129,10 +135,20 @@ def handle(case):
                     for row in tab:
                         fh.write(" ".join(repr(float(x)) for x in row) + "\n")
             kw = dict(from_file=fname, column_range=tuple(case["range"]) if case.get("range") else None)
+        use_dask = bool(case.get("dask"))
         obs = Observation(parameters=params, mode=case["mode"], readout=pyx.make_readout(times=[1.0]),
-                          with_dask=False, **kw)
-        dt = pyxel.run_mode(mode=obs, detector=det, pipeline=pipe, with_inherited_coords=True)
-        entries = dump_result(dt)
+                          with_dask=use_dask, **kw)
+        if use_dask:
+            import dask
+
+            with dask.config.set(scheduler="synchronous"):
+                dt = pyxel.run_mode(mode=obs, detector=det, pipeline=pipe, with_inherited_coords=True)
+                dt = dt.compute() if hasattr(dt, "compute") else dt
+                entries = dump_result(dt)
+        else:
+            dt = pyxel.run_mode(mode=obs, detector=det, pipeline=pipe,
+                                with_inherited_coords=bool(case.get("inherit", True)))
+            entries = dump_result(dt)
     except Exception as ex:  # noqa: BLE001
         raised = type(ex).__name__
         msg = str(ex)[:200]
